@@ -15,3 +15,5 @@ def run(prog, rep):
     _rf.run_parallel(prog, rep)
     from ..rules import r_unit as _ru
     _ru.run_static_memo(prog, rep)
+    from ..rules import r_unit as _ru2
+    _ru2.run_scale_positions(prog, rep)
